@@ -1854,14 +1854,18 @@ Proof. apply sinv_ext; reflexivity. Qed.
 
 Lemma sinv_init0 c : SInv (init c).
 Proof.
+  assert (G : forall h, get (init c) h = dflt_h) by (intros h; unfold get; simpl; destruct h; reflexivity).
   split.
-  - split; simpl; auto; try contradiction.
-    + intros h. unfold get. simpl. destruct h; simpl; intuition.
-    + constructor.
-    + intros h. unfold get. simpl. destruct h; discriminate.
-    + intros h. lia.
-    + intros h. unfold get. simpl. destruct h; discriminate.
-  - intros h. unfold get. simpl. destruct h; reflexivity.
+  - split.
+    + intros h. rewrite G. simpl. intuition.
+    + apply SSorted_nil.
+    + intros h. rewrite G. discriminate.
+    + intros l h. simpl. contradiction.
+    + intros l m. simpl. contradiction.
+    + intros m. simpl. contradiction.
+    + intros h. simpl. lia.
+    + intros h. rewrite G. discriminate.
+  - intros h. rewrite G. reflexivity.
 Qed.
 
 Theorem sinv_run fx beh fuel c ops : SInv (run fx beh fuel (init c) ops).
